@@ -23,7 +23,7 @@ CONSTANTS
   InitDescs <- GenInit3
   Descs <- GenDescs3
   GIdents <- GIdentsT
-  GActions = {"update", "reply", "changed", "error_update", "error_read"}
+  GActions = {"update", "reply", "changed", "error_update", "error_read", "error_change"}
   GLevels <- GLevelsT
   EmitOneIn = 8
   MaxCbs = 4
